@@ -59,6 +59,8 @@ def run(ctx, rep):
     r151(ctx, rep, rule="R1.4")
     r15(ctx, rep)
     r16(ctx, rep)
+    rep.rule("R1.7", "bounds reach the subproblem solvers through the right parameters (no swapped arguments)")
+    common.check_swapped_args(ctx, rep, "R1.7", lambda g: g.module.name.startswith("cobyqa.subsolvers"))
 
 
 # ---------------------------------------------------------------------------
@@ -187,7 +189,9 @@ def r13(ctx, rep):
 
 # ---------------------------------------------------------------------------
 def r15(ctx, rep):
+    from ..inline import expander
     pinit = ctx.func("cobyqa.problem:Problem.__init__")
+    inl = expander(ctx, pinit)
     cfg = ctx.cfg(pinit)
     stores = [n for n in cfg.nodes if n.kind == "stmt" and isinstance(n.ast, ast.Assign)
               and any(isinstance(t, ast.Attribute) and t.attr == "_x0" for t in n.ast.targets)]
@@ -195,15 +199,17 @@ def r15(ctx, rep):
         raise AnalysisError("Problem.__init__: no store to _x0")
     stores.sort(key=lambda n: n.line)
     first = stores[0]
-    v = first.ast.value
+    v = inl.expand(first.ast.value, first.ast)
     ok = isinstance(v, ast.Call) and isinstance(v.func, ast.Attribute) and v.func.attr == "project" and mentions(v.func.value, "_bounds") and not mentions(v.func.value, "_orig_bounds")
+    if not ok and isinstance(v, ast.Call) and (dotted(v.func) or "").split(".")[-1] == "clip":
+        ok = True
     if ok:
         rep.ok("R1.5", f"{pinit.local}:{first.line} x0 = reduced bounds .project(x0[~fixed])")
     else:
         rep.bad("R1.5", "x0 projection")
         rep.finding("R1.5", pinit, norm(first.ast)[:100], first.line, "the starting point is not projected onto the (reduced) bounds")
     for n in stores[1:]:
-        v = n.ast.value
+        v = inl.expand(n.ast.value, n.ast)
         good = isinstance(v, ast.BinOp) and isinstance(v.op, ast.Div) and isinstance(v.left, ast.BinOp) and isinstance(v.left.op, ast.Sub) and mentions(v.left.left, "_x0") and mentions(v.left.right, "_scaling_shift") and mentions(v.right, "_scaling_factor")
         if good:
             rep.ok("R1.5", f"{pinit.local}:{n.line} x0 rescaled by (x0 - shift) / factor")
@@ -212,6 +218,7 @@ def r15(ctx, rep):
             rep.finding("R1.5", pinit, norm(n.ast)[:100], n.line, "a later definition of x0 is not the affine rescaling (x0 - shift) / factor of the projected point")
     # build_x
     bx = ctx.func(T.BUILD_X)
+    inb = expander(ctx, bx)
     rets = [n for n in ast.walk(bx.node) if isinstance(n, ast.Return) and n.value is not None]
     buf = None
     for n in ast.walk(bx.node):
@@ -221,7 +228,7 @@ def r15(ctx, rep):
     if buf is None or not rets:
         raise AnalysisError("build_x: buffer allocation / return not found")
     for r in rets:
-        v = r.value
+        v = inb.expand(r.value, r)
         good = isinstance(v, ast.Call) and isinstance(v.func, ast.Attribute) and v.func.attr == "project" and mentions(v.func.value, "_orig_bounds") and v.args and isinstance(v.args[0], ast.Name) and v.args[0].id == buf
         if good:
             rep.ok("R1.5", f"build_x:{r.lineno} returns _orig_bounds.project({buf})")
@@ -231,7 +238,7 @@ def r15(ctx, rep):
     masks = []
     for n in ast.walk(bx.node):
         if isinstance(n, ast.Assign) and isinstance(n.targets[0], ast.Subscript) and isinstance(n.targets[0].value, ast.Name) and n.targets[0].value.id == buf:
-            masks.append((n.targets[0].slice, n.value, n))
+            masks.append((inb.expand(n.targets[0].slice, n), inb.expand(n.value, n), n))
     pos = [mk for mk in masks if not (isinstance(mk[0], ast.UnaryOp) and isinstance(mk[0].op, ast.Invert))]
     neg = [mk for mk in masks if isinstance(mk[0], ast.UnaryOp) and isinstance(mk[0].op, ast.Invert)]
     good = len(pos) == 1 and len(neg) == 1 and norm(pos[0][0]) == norm(neg[0][0].operand)
@@ -251,6 +258,8 @@ def r15(ctx, rep):
                     ok = True
                 if isinstance(sub, ast.Call) and (dotted(sub.func) or "").split(".")[-1] in ("minimum",) and sub.args and isinstance(sub.args[0], ast.Call) and (dotted(sub.args[0].func) or "").split(".")[-1] == "maximum":
                     ok = True
+                if isinstance(sub, ast.Call) and (dotted(sub.func) or "").split(".")[-1] in ("maximum",) and sub.args and isinstance(sub.args[0], ast.Call) and (dotted(sub.args[0].func) or "").split(".")[-1] == "minimum":
+                    ok = True
     if ok:
         rep.ok("R1.5", "BoundConstraints.project = clip(x, xl, xu)")
     else:
@@ -261,6 +270,13 @@ def r15(ctx, rep):
     if fv:
         last = sorted(fv, key=lambda n: n.lineno)[-1]
         v = last.value
+        if isinstance(v, ast.Name):
+            # the local that is stored: its last definition before the store
+            c2 = ctx.cfg(pinit)
+            nid = c2.node_of(last)
+            defs = c2.reaching_defs().get(nid, {}).get(v.id, ())
+            vals = [c2.nodes[d].ast.value for d in defs if d != c2.entry and isinstance(c2.nodes[d].ast, ast.Assign)]
+            v = vals[0] if len(vals) == 1 else v
         if isinstance(v, ast.Call) and (dotted(v.func) or "").split(".")[-1] == "clip" or (isinstance(v, ast.BinOp) and mentions(v, "xl") and mentions(v, "xu")):
             rep.ok("R1.5", f"{pinit.local}:{last.lineno} fixed values lie within [xl, xu]")
         else:
